@@ -3,6 +3,7 @@ package c03
 import (
 	"fmt"
 	"strings"
+	"sync"
 
 	"verif/core"
 )
@@ -61,12 +62,19 @@ type tracker struct {
 	part    string
 	w       *world
 	rolling []Call // everything executed on w so far
+	// freshMode: see world.fresh
+	freshMode int
 }
 
-func newTracker(r *core.Run, part string) *tracker { return &tracker{r: r, part: part, w: newWorld()} }
+func newTracker(r *core.Run, part string, fresh int) *tracker {
+	t := &tracker{r: r, part: part, freshMode: fresh}
+	t.fresh()
+	return t
+}
 
 func (t *tracker) fresh() {
 	t.w = newWorld()
+	t.w.fresh = t.freshMode
 	t.rolling = t.rolling[:0]
 }
 
@@ -77,7 +85,7 @@ func (t *tracker) do(seq []Call) (first *outcome, ok bool) {
 	for i, c := range seq {
 		t.rolling = append(t.rolling, c)
 		t.r.Eval(1)
-		o, fails := t.w.judgeCall(c)
+		o, fails := t.w.judgeCall(c, i == 0 || i == len(seq)-1)
 		if i == 0 {
 			first = o
 		}
@@ -102,6 +110,10 @@ func (t *tracker) report(minimal []Call, fails []failure) {
 			continue
 		}
 		// shortest reproducing history first: the failing call alone, then the case, then everything this runtime did
+		if _, done := confirmed.Load(f.sig); done {
+			t.r.Violation(f.sig, f.what, nil)
+			continue
+		}
 		cands := [][]Call{minimal[len(minimal)-1:], minimal, append([]Call{}, t.rolling...)}
 		reported := false
 		for ci, h := range cands {
@@ -112,6 +124,8 @@ func (t *tracker) report(minimal []Call, fails []failure) {
 				sig := f.sig
 				if ci == 2 {
 					sig = "history-dependent|" + sig
+				} else {
+					confirmed.Store(sig, true)
 				}
 				t.r.Violation(sig, f.what, Case{Part: t.part, History: h, Detail: f.what})
 				reported = true
@@ -123,6 +137,9 @@ func (t *tracker) report(minimal []Call, fails []failure) {
 		}
 	}
 }
+
+// confirmed: signatures already confirmed 5/5 on brand-new runtimes (with a minimal history stored as their replay case)
+var confirmed sync.Map
 
 func single(r *core.Run) bool {
 	rd := getRef()
@@ -139,12 +156,21 @@ func single(r *core.Run) bool {
 	ok := r.Parallel(int64(len(jobs)), 1, func(_ int, lo, hi int64) {
 		for ji := lo; ji < hi; ji++ {
 			j := jobs[ji]
-			t := newTracker(r, "single")
+			// quick: this sweep fills the fresh-outcome table from its rolling runtime (re-created after every failure);
+			// thorough: every faulted call is also executed as the first call of a brand-new runtime and compared
+			t := newTracker(r, "single", r.Pick(freshNone, freshCompute))
 			fs := faultsFor(j.entry, j.shape)
 			var thrown *outcome // outcome of throw@k, the reference of the other catchable routes at the same k
+			reached := -1       // smallest limit under which the call completed
 			for fi, f := range fs {
 				if r.Expired() {
 					return
+				}
+				if f.Kind == "limit" && reached >= 0 && f.K != maxLimit && r.Quick() {
+					// the execution is deterministic and never got deeper than `reached`: a larger limit cannot fire
+					// (quick tier: only the largest limit is still executed; the thorough tier executes them all)
+					r.Add("limits_implied_by_monotonicity", 1)
+					continue
 				}
 				c := Call{Entry: j.entry, Shape: j.shape, Faults: []Fault{f}}
 				seq := []Call{c}
@@ -155,9 +181,12 @@ func single(r *core.Run) bool {
 				before := t.w.m
 				o, pass := t.do(seq)
 				r.Outcome(f.Kind + "|" + o.Err + "|" + fmt.Sprint(o.Fired))
+				if f.Kind == "limit" && o.Err != "overflow" && reached < 0 && pass {
+					reached = f.K
+				}
 				if !isStateful(j.shape) {
 					if pass {
-						freshTab.Store(c.String(), o)
+						freshTab.LoadOrStore(c.String(), o)
 					}
 					// route differential: all catchable ways of failing at the same probe are indistinguishable to the script
 					if f.Kind == "throw" {
@@ -168,7 +197,7 @@ func single(r *core.Run) bool {
 							want = excClass(f.Kind)
 						}
 						if !eq(normLog(o.Log), normLog(thrown.Log)) || o.Val != thrown.Val || o.Err != want {
-							sig := "route-differs|" + f.Kind + "|" + j.entry + "|" + j.shape
+							sig := "route-differs|" + f.Kind + "|" + boundary(j.entry) + "|" + family(j.shape)
 							what := fmt.Sprintf("%v: %v; the same failure raised by a JS throw statement in log(): %v", c, o, thrown)
 							if confirmRoute(c) {
 								r.Violation(sig, what, Case{Part: "route", History: []Call{c}, Detail: what})
@@ -178,7 +207,7 @@ func single(r *core.Run) bool {
 						}
 					}
 				}
-				if (fi == len(fs)/3 || f.Kind == "limit" && f.K == 3) && o != nil {
+				if (o.Fired > 0 || o.Err == "overflow") && (fi == len(fs)/3 || fi == len(fs)/3+1 || f.Kind == "limit" && f.K == 3) {
 					smp := map[string]interface{}{"call": c.String(), "followed_by": callNames(seq[1:]), "log": o.Log, "host_received": o.Err, "fault_fired": o.Fired > 0 || o.Err == "overflow"}
 					if isStateful(j.shape) {
 						smp["model_state_before"] = before.key()
